@@ -213,7 +213,7 @@ def prim_case(fn, n, strat, iters, acc, family="", liar_limit=300):
     if tape is not None and tape.served and not isinstance(strat, (list, tuple)):
         case["strat"] = list(tape.served)
     cls = "prime" if prime else ("unit" if n < 2 else "composite")
-    acc.seen("prim_classes", (fn, cls, pp, family or "range", strat if isinstance(strat, str) else "explicit",
+    acc.seen("prim_classes", (fn, cls, pp, family.split(" ")[0] or "range", strat if isinstance(strat, str) else "explicit",
                               min(len(used), 3) if used is not None else -1))
     what0 = "%s(%s%s)%s" % (name, short(n), ", %d" % iters if fn == "mr" else "",
                             " with Miller-Rabin bases %s" % short(used[:6], 30) if used else "")
@@ -241,7 +241,7 @@ def prim_case(fn, n, strat, iters, acc, family="", liar_limit=300):
     if fn == "lucas":
         if nt.lucas_probable_prime(n):
             acc.count("prim_legit_pseudoprime_passes")
-            acc.seen("prim_legit", (fn, family or "range"))
+            acc.seen("prim_legit", (fn, family.split(" ")[0] or "range"))
             return []
         key = "C14/primality/composite-declared-prime/lucas/not-a-lucas-pseudoprime"
         acc.violation(key, "%s declares the composite %s PROBABLY_PRIME although U_(n+1) != 0 (mod n) for Selfridge's "
@@ -275,7 +275,7 @@ def prim_case(fn, n, strat, iters, acc, family="", liar_limit=300):
         return [key]
     # legitimate: every drawn base is a strong liar (and n is a Lucas pseudoprime for the combined test)
     acc.count("prim_legit_pseudoprime_passes")
-    acc.seen("prim_legit", (fn, family or "range"))
+    acc.seen("prim_legit", (fn, family.split(" ")[0] or "range"))
     if fn in ("tpp", "isPrime"):
         acc.observe("%s declares a composite probably prime when EVERY base on the randfunc tape is a strong liar%s "
                     "(adversarial randomness: the algorithm's documented error case, not judged)"
@@ -442,9 +442,9 @@ def primes_worker(quick, acc):
 def range_worker(lo, hi, acc):
     """every integer of [lo, hi): all four tests"""
     for n in range(lo, hi):
-        prim_case("lucas", n, None, 0, acc)
         prim_case("tpp", n, "small", 0, acc)
         prim_case("tpp", n, "seed0", 0, acc)
+        prim_case("lucas", n, None, 0, acc)
         prim_case("mr", n, "small", 1, acc)
         prim_case("mr", n, "seed0", 3, acc)
         prim_case("mr", n, "top", 2, acc)
